@@ -1688,9 +1688,41 @@ fn replay_room_three_paths(sc: &Value) -> Value {
         let reload_err = reloaded.as_ref().err().map(|e| format!("{}", e));
         let mut reload_decision = None;
         let mut reload_members = live_members.clone();
+        let mut history_differs = false;
         if let Ok((app2, _, _)) = reloaded {
             reload_decision = probe(app2.clone(), room_id.clone(), ent.clone()).await;
             reload_members = members(app2.clone(), key_names.clone(), key_bytes.clone()).await;
+            // the room as the start-up code rebuilds it (LOAD_QUERY + load_json) against the room an importing peer builds from the exported rows:
+            // both carry the real dates of the entries, so they can be compared at every moment of the history, not only now
+            if let (Ok(json), Some(node)) = (app2.query(RoomAuthorisations::LOAD_QUERY, None).await, &exported) {
+                let mut ra = RoomAuthorisations { signing_key: Ed25519SigningKey::create_from(&crate::security::random32()), rooms: HashMap::new(), max_node_size: 1 << 20 };
+                if let (Ok(()), Ok(imported_room)) = (ra.load_json(&json), node.parse()) {
+                    if let Some(reloaded_room) = ra.rooms.get(&room_uid) {
+                        let mut dates: Vec<i64> = vec![];
+                        for u in node.admin_nodes.iter() { dates.push(u.node.mdate); }
+                        for a in node.auth_nodes.iter() {
+                            for u in a.user_nodes.iter().chain(a.user_admin_nodes.iter()) { dates.push(u.node.mdate); }
+                            for r in a.right_nodes.iter() { dates.push(r.node.mdate); }
+                        }
+                        let mut probes: Vec<i64> = vec![];
+                        for d in dates { probes.push(d - 1); probes.push(d); probes.push(d + 1); }
+                        for (_, k) in key_names.iter().zip(key_bytes.iter()) {
+                            for d in &probes {
+                                if reloaded_room.is_admin(k, *d) != imported_room.is_admin(k, *d) || reloaded_room.is_user_valid_at(k, *d) != imported_room.is_user_valid_at(k, *d) {
+                                    history_differs = true;
+                                }
+                                for ent in ["E", "F"] {
+                                    for right in [RightType::MutateSelf, RightType::MutateAll] {
+                                        if reloaded_room.can(k, ent, *d, &right) != imported_room.can(k, ent, *d, &right) {
+                                            history_differs = true;
+                                        }
+                                    }
+                                }
+                            }
+                        }
+                    }
+                }
+            }
         }
         // import on a fresh instance
         let (app_b, _, _) = start(path_b.clone(), crate::security::random32(), crate::security::random32()).await.unwrap();
@@ -1699,14 +1731,14 @@ fn replay_room_three_paths(sc: &Value) -> Value {
             None => Err("room not exported".to_string()),
         };
         let decisions_differ = match sc["path"].as_str().unwrap_or("reload") {
-            "import" => import_differs,
+            "import" => import_differs || history_differs,
             _ => (match (live_decision, reload_decision) {
                 (Some(a), Some(b)) => a != b,
                 _ => false,
-            }) || live_members != reload_members,
+            }) || live_members != reload_members || history_differs,
         };
         json!({"status": "done", "reload_ok": reload_ok, "reload_error": reload_err, "import_ok": import.is_ok(), "import_error": import.err(),
-               "live_decision": live_decision, "reload_decision": reload_decision, "import_differs": import_differs, "decisions_differ": decisions_differ,
+               "live_decision": live_decision, "reload_decision": reload_decision, "import_differs": import_differs, "reload_and_import_differ_in_the_past": history_differs, "decisions_differ": decisions_differ,
                "live_members": format!("{:?}", live_members), "reload_members": format!("{:?}", reload_members)})
     })
 }
